@@ -19,8 +19,8 @@ SPEC = {
              "(all 118 elements in one molecule), M7-small up to 3-digit indices, corpus. distinct_nontrivial = distinct emitted strings of molecules with "
              ">=2 elements or >=1 labelled atom"),
     "assumptions": ["isomorphism verdicts: exact canonical form (n<=8) or igraph VF2 on the harness's projection; molecules > 400 atoms skipped (counted)"],
-    "monitors_required": ["c03_parse_back"],
-    "required_obs": {"quick": ["cov_input_iteration_order_differs_from_labels", "cov_symbol_order_differs_from_Z_order", "cov_index_ge_100", "cov_block_with_two_differently_labelled_atoms", "cov_corpus", "cov_elements_seen_ge_100"]},
+    "monitors_required": ["c03_parse_back", "c03_text_route_parse_back"],
+    "required_obs": {"quick": ["cov_text_route_v3000", "cov_text_route_v2000", "cov_input_iteration_order_differs_from_labels", "cov_symbol_order_differs_from_Z_order", "cov_index_ge_100", "cov_block_with_two_differently_labelled_atoms", "cov_corpus", "cov_elements_seen_ge_100"]},
     "watchdog_s": {"quick": 900, "thorough": 3600},
 }
 PLAN = {
@@ -52,6 +52,8 @@ def _run_case(ctx, case):
         if not ok:
             return
         ctx.count("cov_input_iteration_order_differs_from_labels")
+    if mol is not None and len(mol.atoms) <= 60:
+        text_route(ctx, case, mol, rng)
     syms = [d["element_symbol"] for _, d in g0.nodes(data=True)]
     elems = sorted(set(syms))
     from ..oracles.elements import hill_order
@@ -72,6 +74,37 @@ def _run_case(ctx, case):
         ctx.nontrivial(s0)
     molprops.coverage(ctx, case, g0)
     ctx.sample({"class": case.get("cls"), "name": case.get("name"), "atoms": len(syms), "string": s0[:160]})
+
+
+def text_route(ctx, case, mol, rng):
+    """The molecule as a molfile (random legal spelling): the string obtained through the reader must still reconstruct the molecule the file states."""
+    import tucan.io.molfile_reader as mr
+    import tucan.canonicalization as c
+    import tucan.serialization as s
+    import tucan.parser.parser as pp
+    from ..oracles import ctab, iso
+    from .c07 import random_style
+    use_v2 = rng.random() < 0.3
+    m = mol
+    if use_v2:
+        m = mol.copy()
+        m.bonds = [(i, j, t if 1 <= t <= 8 else 1) for i, j, t in m.bonds]
+        use_v2 = ctab.v2000_representable(m)
+    if use_v2:
+        text = ctab.render_v2000(m, ctab.V2Style(encoding=rng.choice(["lines", "codes", "stale"]), per_line=rng.choice([0, 2, 8]), dt_symbols=True,
+                                                 unrelated=rng.choice([0, 0.4])), rng)
+    else:
+        st = random_style(rng, mol)
+        text = ctab.render_v3000(mol, st, rng)
+    ctx.evaluations += 1
+    out = s.serialize_molecule(c.canonicalize_molecule(mr.graph_from_molfile_text(text)))
+    p = pp.graph_from_tucan(out)
+    c2, e2 = bridge.colors_edges(p)
+    ctx.mon("c03_text_route_parse_back")
+    ctx.count("cov_text_route_v2000" if use_v2 else "cov_text_route_v3000")
+    if not iso.isomorphic(mol.colors(), mol.edge_pairs(), c2, e2):
+        ctx.violation("trace:text-route-parse-back", {"what": "the string obtained from a molfile does not reconstruct the molecule the file states", "string": out[:300],
+                                                       "molecule": mol.to_json(), "text": text[:2500]}, {**case, "variant": "text-route"})
 
 
 def run(ctx):
